@@ -4,6 +4,7 @@ and mile seam, 1 km steps beyond) and the road spellings N[.d]K / N[.d]M x gende
 factor within the hull of the bracketing rows, best within theirs and increasing with distance, ends of the table do not fail."""
 import json, os, math
 from vlib import common
+from vlib import orderpass
 from vlib.common import Report, Violation, HarnessError, Acc, pmap, merge
 from checks import c14
 
@@ -170,6 +171,14 @@ def run(tier):
     rep.assumptions += ['the distance of a spelling is what get_distance reports; tabulated distances are the km column of the table',
                         'bracketing rows = all rows at the greatest smaller / least greater tabulated distance, plus rows at exactly the same distance under another code',
                         'beyond either end: no exception, finite positive answers, factor equal to the end row(s)']
+    W = 'athlib.wma_age_factor', 'athlib.wma_age_grade', 'athlib.wma_world_best'
+    oc = []
+    for y in (2015, 2023):
+        oc += [(W[0], ('m', 50, '11K'), dict(year=y)), (W[0], ('f', 60, '5.3M'), dict(year=y)), (W[0], ('m', 45, '2400'), dict(year=y)), (W[0], ('m', 45, '7000'), dict(year=y)),
+               (W[0], ('f', 45, '7000'), dict(year=y)), (W[0], ('m', 45, '10K'), dict(year=y)), (W[0], ('m', 45, '10000'), dict(year=y)), (W[0], ('m', 70, '42'), dict(year=y)),
+               (W[0], ('m', 70, '250000'), dict(year=y)), (W[2], ('m', '11K'), dict(year=y)), (W[2], ('f', '6200'), dict(year=y)), (W[2], ('m', '1609'), dict(year=y)),
+               (W[1], ('m', 50, '8046', 1700.0), dict(year=y))]
+    orderpass.part(rep, oc, 'interpolation call-order pass')
     return rep.finish()
 
 
